@@ -166,7 +166,7 @@ def write_inputs(sc, in_dir):
 def apply_fault(cfg, fault):
     k = fault.get("kind")
     if k == "invalid":
-        cfg[fault["key"]] = {"not": "valid"} if fault.get("as") == "dict" else "not-valid"
+        cfg[fault["key"]] = [1, "x"] if fault.get("as") == "list" else "not-valid"
     elif k == "unser":
         key = fault["key"]
         if key == "d.k":
@@ -504,8 +504,7 @@ def judge(res, sc, fault):
                 slots = subs + [mi["path"]]
                 io_file = slots[fault["k"]] if fault.get("kind") == "write" and fault["k"] < len(slots) else None
             rest = [n for n in diff_out if n not in allowed and n != io_file]
-            tgt = os.path.basename(mi["path"])
-            if rest or (tgt in diff_out and tgt != io_file and tgt not in allowed):
+            if rest:
                 out.append((None, "save raised (%s) but the directory changed: %s" % (res["outcome"], diff_out)))
             elif [n for n in diff_out if n != io_file]:
                 out.append((FINDING_PARTIAL, "multi-file save failed (%s) after %d sub-file(s) were written: %s stay written"
@@ -631,8 +630,10 @@ def all_faults(sc, n_writes):
     """a failure injected at each step: validation at each typed key, serialisation at each Any value, each open, each write"""
     out = [{"kind": "none"}]
     for k, kind in leaf_keys(sc):
-        if kind in ("int", "enum", "str"):
+        if kind in ("int", "enum"):
             out.append({"kind": "invalid", "key": k})
+        if kind == "str":
+            out.append({"kind": "invalid", "key": k, "as": "list"})
         if kind in ("any", "dictval"):
             out.append({"kind": "unser", "key": k})
         if kind == "enum":
